@@ -412,9 +412,12 @@ sstat MainSolver::giveToSolver(PTRef root, FrameId push_id) {
 
 sstat MainSolver::check() {
     ++check_called;
+    // Timing is a diagnostic: it goes to stderr so that standard output stays reproducible.  The stop watch has to
+    // live until the end of check() to measure the query (it used to be destroyed at the end of the if-block).
+    std::unique_ptr<StopWatch> queryStopWatch;
     if (config.timeQueries()) {
-        printf("; %s query time so far: %f\n", solver_name.c_str(), query_timer.getTime());
-        StopWatch sw(query_timer);
+        fprintf(stderr, "; %s query time so far: %f\n", solver_name.c_str(), query_timer.getTime());
+        queryStopWatch = std::make_unique<StopWatch>(query_timer);
     }
 #ifdef OPENSMT_VERIF
     if (isLastFrameUnsat()) { verifTraceState("check", "(result unsat) (via flag)"); }
